@@ -54,6 +54,7 @@ type lcClient struct {
 	Offered  []net.Conn // every work conn this client opened
 	offClosed map[net.Conn]bool
 	ReqSeen  []time.Duration
+	natSids  int
 }
 
 const (
@@ -145,7 +146,22 @@ func (c *lcClient) serveWork(alive bool) {
 }
 
 func (c *lcClient) runWork(conn net.Conn) {
-	st, err := AwaitStart(conn, 0)
+	typ0, body0, err := readFrame(conn)
+	if err == nil && typ0 == tNatHoleSid {
+		// an xtcp proxy's owner is handed a session id over a work connection
+		c.smu.Lock()
+		c.natSids++
+		c.smu.Unlock()
+		conn.Close()
+		return
+	}
+	st := M{}
+	if err == nil && typ0 != tStartWorkConn {
+		err = fmt.Errorf("unexpected first frame %q on work connection", typ0)
+	}
+	if err == nil {
+		err = json.Unmarshal(body0, &st)
+	}
 	if err != nil {
 		c.smu.Lock()
 		c.offClosed[conn] = true
